@@ -193,3 +193,13 @@ case: nb => [|p l] // _ H; have sz : size (p :: l) = (size l).+1 by [].
 split; first exact: zdet_gram_rows_centred_eq0 sz H.
 by move/leP => kd; split; [exact: zdet_gram_centred_eq0 sz H kd|exact: det_piv_gram_centred_None sz H kd].
 Qed.
+
+(* non-vacuity: three points in dimension 4 (k = 2 < d = 4) satisfy the hypotheses; the conclusions, here also computed;
+   and in dimension 2 (k = 2 >= d) the Gram determinant of the same points' first two coordinates is not 0 *)
+Example ex_rank_hypotheses :
+  let nb := [:: [:: Zpos 1; Zpos 2; Zpos 3; Z0]; [:: Zpos 4; Z0; Zpos 2; Zneg 1]; [:: Z0; Zpos 5; Zpos 1; Zpos 7]] in
+  nb <> [::] /\ pointsP 4%N nb /\ (List.length nb <= 4%N)%coq_nat /\
+  GeoRank.zdet 4%N (GeoEllipsoid.gram (GeoEllipsoid.centred nb 4%N) 4%N) = Z0 /\
+  GeoRank.zdet 3%N (GeoRank.gram_rows (GeoEllipsoid.centred nb 4%N)) = Z0 /\
+  GeoRank.zdet 2%N (GeoEllipsoid.gram (GeoEllipsoid.centred (map (take 2%N) nb) 2%N) 2%N) <> Z0.
+Proof. by do !split=> //; do !constructor. Qed.
